@@ -24,7 +24,7 @@ def run(ctx):
             ctx.corr(hx, ["run", "--n", "1500", "--free", "300"], cases_name="cases%d.v" % k, timeout=900)
         ctx.seed -= 5000
         ctx.corr(hx, ["group", "--n", "1500", "--free", "150"], cases_name="gcases.v", timeout=900)
-        ctx.corr(hx, ["waiters", "--n", "1200"], cases_name="wcases.v", timeout=900)
+        ctx.corr(hx, ["waiters", "--n", "400"], cases_name="wcases.v", timeout=900)
     else:
         ctx.corr(hx, ["run", "--n", "500", "--free", "60"], timeout=300)
         ctx.corr(hx, ["group", "--n", "150", "--free", "20"], cases_name="gcases.v", timeout=300)
